@@ -47,9 +47,15 @@ def _str_encoder(val, formatspec):
     return f'{val:{formatspec}}'.encode('utf-8')
 
 
+def _text_encoder(val, leng):
+    # pad to `leng` BYTES, not characters: the field was sliced out of the payload as bytes
+    byt = val.encode('utf-8')
+    return byt + b' '*(leng - len(byt))
+
+
 def _create_encoder(typ_string, leng):
     if typ_string == 's':
-        return functools.partial(_str_encoder, formatspec=f'{leng}s')
+        return functools.partial(_text_encoder, leng=leng)
     if typ_string == 'd':
         return functools.partial(_str_encoder, formatspec=f'0{leng}d')
     if typ_string == 'b':
